@@ -53,6 +53,7 @@ def check(m, run):
     from .. import skel_drivers as _sdb
     _sdb.bf3(m, run)
     _sdb.evx(m, run)      # ... and every evaluated point being the combination of exactly the degree + 1 (per direction) active control points with them (EVX, shared with C01)
+    _sdb.cp2(m, run)      # parameters are accepted exactly when they lie in the (normalised) domain: no tolerance lets an evaluation out of it
     rs.iv4_deepcopy(m, run)
     run.floor('LY1.canonical-stride', 3, 'surface/volume evaluators')
 
